@@ -181,7 +181,7 @@ def atoms_core() -> list[Atom]:
 
 def atoms_eof() -> list[Atom]:
     """[EOF] forms (last position only)."""
-    return [atom(TArr(e, EOF)) for e in (INTS["uint8"], INTS["uint16"], INTS["uint24"], CHAR, WCHAR, E16s, IN)]
+    return [atom(TArr(e, EOF)) for e in (INTS["uint8"], INTS["uint16"], INTS["uint24"], CHAR, WCHAR, E16s, IN, IN2)]  # IN2: tail padding when aligned
 
 
 _REG: dict[str, Atom] = {}
